@@ -7,7 +7,7 @@ cd /verif
 ok=0; bad=0
 while IFS=$'\t' read -r kind prop file expr only what; do
   case "$kind" in \#*|"") continue;; esac
-  args=(); [ -n "$only" ] && args=(--only "$only")
+  args=(); [ -n "$only" ] && [ "$only" != "-" ] && args=(--only "$only")
   out=$(tools/mutant.sh "$prop" "$file" "$expr" "${args[@]}" 2>&1)
   rc=$(echo "$out" | grep -o '^exit=[0-9]*' | tail -1 | cut -d= -f2)
   nochange=$(echo "$out" | grep -c 'DID NOT CHANGE')
